@@ -8,7 +8,13 @@ ID="$1"; TIER="${2:-${VERIF_TIER:-quick}}"
 mkdir -p bin work evidence replays
 cp /repo/go.sum go.sum 2>/dev/null
 case "$ID" in
-  C11|C19) BIN=bin/check-overlay; scripts/build-overlay.sh || exit $? ;;
+  C11|C19) BIN=bin/check-overlay; scripts/build-overlay.sh || exit $?
+     if [ "$ID" = C19 ]; then
+        # auxiliary pass: the race detector on the UNMODIFIED current tree
+        if ! go test -race -c -o bin/racepass.test ./internal/racepass 2> work/build.race.log; then
+           cat work/build.race.log >&2; echo "BUILD-FAILED: race pass" >&2; exit 2
+        fi
+     fi ;;
   *) BIN=bin/check
      if ! go build -o bin/check ./cmd/check 2> work/build.$ID.log; then
         cat work/build.$ID.log >&2
